@@ -371,7 +371,7 @@ fn decoy_kinds(n: usize) -> Vec<Kind> {
 pub fn spec_n(s: &Spec) -> usize {
     match s {
         Spec::Un(k, i) => k.n().unwrap_or(0).max(spec_n(i)),
-        Spec::Tap(_, i) => spec_n(i),
+        Spec::Tap(_, i) | Spec::Warm(_, i) => spec_n(i),
         Spec::Bin(_, a, b) => spec_n(a).max(spec_n(b)),
         Spec::Ma(_, n, v, m) => (*n).max(spec_n(v)).max(spec_n(m)),
         _ => 1,
